@@ -1,6 +1,8 @@
 import HappyProofs.C14.Flush
 import HappyProofs.C14.Compact
 import HappyModel.C14.Driver
+import HappyProofs.C14.BTreeMain
+import HappyProofs.C14.TxnMain
 /-!
 # C14 — property theorems (LSM tree as a map)
 
@@ -121,5 +123,58 @@ example : (∀ t ∈ [(⟨1, [(0, some 1), (1, none)]⟩ : Tab), ⟨2, [(1, some
   decide
 
 example : (memInsert exSt 0 (some 4)).1.abs 0 = some 4 ∧ (memInsert exSt 1 none).1.abs 1 = none := by decide
+
+/-! ## B-tree, KVStore, transaction manager
+
+The B-tree theorems (`BT.btree_refines_map`, `BT.btree_sorted`, `BT.map_lookup_upsert`, `BT.map_lookup_erase`)
+are in `BTreeMain.lean`, the transaction theorems (`SM.serializable_commit_order`,
+`SM.snapshot_reads_consistent`, `SM.kv_laws` and the `_kv` corollaries) in `TxnMain.lean`.  Here the two
+meet: a B-tree satisfying its invariant obeys the map laws the transaction theorems ask of a store, so
+both hold for a `TransactionManager` over a `BTree` of any order ≥ 3 and any initial contents. -/
+
+namespace SM
+open HappyModel.C14.BT
+
+/-- a B-tree of order ≥ 3 satisfying the search-tree invariant -/
+def btOk (s : Store) : Prop := ∃ t order, s = .bt t ∧ 3 ≤ order ∧ TreeInv order t
+
+theorem bt_laws :
+    (∀ s k v, btOk s → btOk (s.putSync k v)) ∧
+    (∀ s k v k', btOk s → (s.putSync k v).getSync k' = if k' = k then some v else s.getSync k') := by
+  constructor
+  · rintro s k v ⟨t, order, rfl, ho, ht⟩
+    exact ⟨t.put k v, order, rfl, ho, (put_spec order ho t ht k v).1⟩
+  · rintro s k v k' ⟨t, order, rfl, ho, ht⟩
+    have hp := put_spec order ho t ht k v
+    show (t.put k v).get k' = if k' = k then some v else t.get k'
+    rw [get_eq order _ hp.1, get_eq order t ht, hp.2,
+      leafGet_eq_lookup k' _ (map_sorted_upsert k v _ (toList_sorted order t ht)),
+      leafGet_eq_lookup k' _ (toList_sorted order t ht)]
+    exact map_lookup_upsert _ (toList_sorted order t ht) k k' v
+
+/-- every tree built by puts and deletes from the empty tree is such a store -/
+theorem btOk_built (order : Nat) (h : 3 ≤ order) (ops : List BOp) :
+    btOk (.bt (ops.foldl BTree.apply { order := order })) :=
+  ⟨_, order, rfl, h, (fold_spec order h ops { order := order } [] (treeInv_empty order) rfl).1⟩
+
+theorem serializable_commit_order_btree (s0 : Store) (h0 : btOk s0) (acts : List Act) :
+    let r := runA { store := s0 } acts
+    (∀ k, r.1.store.getSync k = replay s0.getSync r.2 k) ∧
+    ∀ pre post slot wset tx, r.2 = pre ++ Ev.committed slot wset :: post →
+      r.1.tx? slot = some tx → tx.level = .ser →
+      ∀ k val, Ev.fetched slot k val ∈ pre → val = replay s0.getSync pre k :=
+  serializable_commit_order btOk bt_laws.1 bt_laws.2 s0 h0 acts
+
+theorem snapshot_reads_consistent_btree (s0 : Store) (h0 : btOk s0) (acts : List Act) :
+    let r := runA { store := s0 } acts
+    ∀ pre mid post slot k val tx, r.2 = pre ++ Ev.began slot :: mid ++ Ev.fetched slot k val :: post →
+      r.1.tx? slot = some tx → tx.level ≠ .rc → val = replay s0.getSync pre k :=
+  snapshot_reads_consistent btOk bt_laws.1 bt_laws.2 s0 h0 acts
+
+/-- non-vacuity: an order-3 tree of depth 3 built from scrambled puts with an overwrite is `btOk` -/
+example : btOk (.bt ([BOp.put 5 1, .put 2 2, .put 8 3, .put 1 4, .put 6 5, .put 5 6, .del 2].foldl BTree.apply { order := 3 })) :=
+  btOk_built 3 (by decide) _
+
+end SM
 
 end HappyModel.C14
